@@ -4,6 +4,30 @@ import json, subprocess
 
 BASELINE = "cd /repo && cargo nextest run --workspace --no-fail-fast --tool-config-file pb:/w/lib/nextest.toml --profile pb --test-threads 8 --offline"
 
+# what was added to each check after the first version (sequences, transports, configurations); appended to the technique text
+ADDED = {
+ "C01": "probe versions include pre-releases of the range bounds; one-path layers over all 13 ranges in every order; a live slice (real server, raw TCP, consecutive requests on one connection that differ only in the version; a table with version-restricted endpoints must be refused by a server without a version policy)",
+ "C02": "single-endpoint rules re-run on descriptions that already hold a prefix / continuation of the template; dispatch must not depend on the registration order of an accepted set; reference-free consistency of registration and dispatch for bounds that differ only in build metadata",
+ "C03": "every ordered pair of a focused alphabet of colliding spellings as a request sequence on a fresh router; paths with up to 5000 segments / slash runs; live slice through the Path extractor",
+ "C04": "probe versions include pre-releases of the range bounds; live slice compares status, Allow and handler counter over TCP (several 405s on one path at different versions)",
+ "C05": "registration histories of three (thorough: four, five) ranges; live header policy also in front of an API without version-restricted endpoints; build-metadata consistency",
+ "C06": "root path template, response-header newtypes, pre-release document versions",
+ "C07": "canonical request also with chunked framing; success values that cannot be sent (framework-made error must match the documented error schema) under each error type",
+ "C08": "types that are also used as query/path parameter types, same-named types, zero limits, null defaults; the annotation oracle counts occurrences over the schemas reachable from the type",
+ "C09": "bodies cut short before their declared end (half-close / close / reset); HTTP/2 body framing with a hand-written client (every composition into DATA frames, empty DATA frames, END_STREAM placement); TLS slice with every handshake completion order",
+ "C10": "optional scan parameters of a paginated endpoint; HTTP/2 DATA-frame scripts; versioned routes with per-version content types; all live servers log the request headers",
+ "C11": "requests declaring both Content-Length and chunked; HTTP/2 DATA frames cut near the limit; endpoints declared through the #[endpoint] macro with other attributes beside the limit; per-version overrides",
+ "C12": "a failed serialisation right before a good one on the same thread (in-process and on a single-threaded server); capitalised declared header names; HTTP/2 pass with multiplexed streams",
+ "C13": "more than 2^16 requests per server; handler-supplied x-request-id; unserialisable success values; HTTP/2 pass with multiplexed streams",
+ "C14": "128-bit selector fields, repeated keys, scan parameters with deny_unknown_fields, limits beyond the limit type's range",
+ "C15": "failing-token requests between scans and between pages; collections whose tokens lie right at the 512-character bound",
+ "C16": "request kinds with a body the endpoint never reads; HTTP/2 slice (stream reset, connection drop); TLS slice (resets mid-handshake); thorough: no-settle pass",
+ "C17": "large-response world (shutdown while the response is being written); HTTP/2 shutdown slice (cleartext and ALPN over TLS) with a client that stays connected; long-hold histories; thorough: no-settle pass",
+ "C18": "TLS fault slice; oversized chunked bodies judged; stops after 24 failed liveness probes",
+ "C19": "document request content type; deviations on unpublished endpoints; root-path declarations; doc lines starting with '*'; live body-limit slice",
+ "C20": "records arriving in pieces at handlers that read with read / read_exact / read_buf, over TCP and TLS; payload pipelined with the handshake; vectored writes under back-pressure",
+}
+
 # id -> (engine, level, technique, level_text, level_note, design_ref)
 CHECKS = {
  "C01": ("E1", "model_checking",
@@ -127,7 +151,7 @@ def main():
                 "engine": eng,
                 "level_claimed": {"category": level, "text": text, "design_ref": ref},
                 "level_note": note,
-                "technique": tech,
+                "technique": tech + ("; also: " + ADDED[pid] if pid in ADDED else ""),
             })
         else:
             na.append({"property_id": pid, "reason": NOT_YET.get(pid, "check not built yet in this commit (work in progress; the design in DESIGN.md claims it) - not claimed until its check exists and passes on the unchanged tree")})
